@@ -222,6 +222,7 @@ fn eval(id: &str, sc: &Scenario, rep: &mut Report) {
 
 pub fn run(args: &Args) -> i32 {
     let mut rep = Report::new(args, true);
+    rep.case_cpu_s = 900;
     let kinds: Vec<usize> = if args.thorough() { vec![0, 1, 2, 3, 4] } else { vec![(args.seed % 5) as usize] };
     let mut idx = 0u64;
     for kind in kinds {
